@@ -59,6 +59,22 @@ def main():
                     bad += 1
                     if bad <= 8:
                         print(f"  FAIL {kind}: {n1} at {p1}; then {n2} at {p2}: got {got}, a fresh copy gives {want}")
+    # three-step histories: a node evaluated at p, then an enclosing expression (or a derivative
+    # of the node) at q, then the node at p again
+    for kind in kinds:
+        for p, q in itertools.permutations(points[:3], 2):
+            e, shared = make(kind)
+            fresh_e, fresh_shared = make(kind)
+            for first, second, label in ((shared, e, "inner; outer; inner"), (e, shared, "outer; inner; outer")):
+                outcome(lambda: first.at(sm.Point(**p)))
+                outcome(lambda: second.at(sm.Point(**q)))
+                outcome(lambda: sm.Derivative(first).at(sm.Point(**q)) if len(first._variable_names) <= 1 else sm.Partial(first, "x").at(sm.Point(**q)))
+                got = outcome(lambda: first.at(sm.Point(**p)))
+                want = outcome(lambda: (fresh_shared if first is shared else fresh_e).at(sm.Point(**p)))
+                if got != want:
+                    bad += 1
+                    if bad <= 8:
+                        print(f"  FAIL {kind}: {label}: at {p}, then at {q}, then at {p} again: got {got}, a fresh copy gives {want}")
     # a Partial object queried before and after as_expression()
     for kind in kinds:
         for p in points:
